@@ -148,7 +148,9 @@ fn lookup_block_or_reference(parser: &mut Parser, recovery: TokenSet) {
     } else if parser.matches(2, Kind::Semi) {
         parser.in_node(AstKind::LookupRefNode, |parser| {
             assert!(parser.eat(Kind::LookupKw));
-            parser.eat_remap(TokenSet::IDENT_LIKE, AstKind::Ident);
+            // 'lookup ;;' also gets here (the token after next is ';'): the
+            // label is required, later passes look it up unconditionally.
+            parser.expect_remap_recover(TokenSet::IDENT_LIKE, AstKind::Ident, TokenSet::SEMI);
             parser.expect_semi();
         })
     } else {
